@@ -94,6 +94,16 @@ def run_bmc(stats, lib, inputs: dict, outputs: list, K: int, make_monitor, *, cl
         stats.solver_s += time.time() - t0
         return ("vacuous" if r0 == z3.unsat else "unknown"), "environment assumptions unsatisfiable"
     stats.sat += 1
+    # the witness of the twin is replayed concretely (same interpreter and monitor code on Python ints): every
+    # obligation must hold on it and every assumption must be true -- cross-check of symbolic vs concrete semantics
+    m0 = s.model()
+    wtrace = [{n: m0.eval(sy[n], model_completion=True).as_long() for n in inputs} for sy in syms]
+    winit = {k: eval_model(m0, v) for k, v in sim.init_syms.items()}
+
+    def witness_ok():
+        a_ok, failed, _ = _concrete(lib, make_monitor, drive, wtrace, winit)
+        return a_ok and not failed
+
     if bad is False:
         stats.solver_s += time.time() - t0
         return "ok", {"obligations": len(mon.checks) + len(sim.obligations), "trivially": True}
@@ -103,6 +113,9 @@ def run_bmc(stats, lib, inputs: dict, outputs: list, K: int, make_monitor, *, cl
     stats.queries += 1
     if r == z3.unsat:
         stats.unsat += 1
+        if not witness_ok():
+            return "unknown", "unsat, but the concrete replay of the reachability witness fails an obligation or assumption (symbolic/concrete disagreement)"
+        stats.extra["traces_validated"] = stats.extra.get("traces_validated", 0) + 1
         return "ok", {"obligations": len(mon.checks) + len(sim.obligations) + len(sim.errors)}
     if r == z3.unknown:
         stats.unknown += 1
@@ -111,18 +124,20 @@ def run_bmc(stats, lib, inputs: dict, outputs: list, K: int, make_monitor, *, cl
     m = s.model()
     trace = [{n: m.eval(sy[n], model_completion=True).as_long() for n in inputs} for sy in syms]
     init = {k: eval_model(m, v) for k, v in sim.init_syms.items()}
-    # concrete replay
+    a_ok, failed, log = _concrete(lib, make_monitor, drive, trace, init)
+    if not a_ok:
+        return "unknown", "model violates an assumption concretely"
+    if not failed:
+        return "unknown", "counterexample does not reproduce concretely"
+    return "violation", {"failed": failed[:4], "trace": trace, "init": init, "log": log[: failed[0][1] + 2 if isinstance(failed[0][1], int) else None]}
+
+
+def _concrete(lib, make_monitor, drive, trace, init):
+    """concrete run of the same text + monitor -> (assumptions hold, failed obligations, log)"""
     sim2 = VS.Sim(lib, uninit="zero")
     _install_init(sim2, init)
     mon2 = make_monitor()
     log = []
-
-    def conc_trace(i):
-        return dict(trace[i])
-
-    class _Logged:
-        pass
-
     orig_step = mon2.step
 
     def step(i, ins, outs):
@@ -130,15 +145,13 @@ def run_bmc(stats, lib, inputs: dict, outputs: list, K: int, make_monitor, *, cl
         orig_step(i, ins, outs)
 
     mon2.step = step
-    drive(sim2, mon2, conc_trace)
+    drive(sim2, mon2, lambda i: dict(trace[i]))
     if any(a is False for a in mon2.assumes):
-        return "unknown", "model violates an assumption concretely"
+        return False, [], log
     failed = [(msg, i) for c, msg, i in mon2.checks if c is True]
     failed += [(f"emitted assertion: {msg}", tm) for c, msg, w, tm in sim2.obligations if c is True]
     failed += [(f"simulation error: {msg}", tm) for c, msg, w, tm in sim2.errors if c is True]
-    if not failed:
-        return "unknown", "counterexample does not reproduce concretely"
-    return "violation", {"failed": failed[:4], "trace": trace, "init": init, "log": log[: failed[0][1] + 2 if isinstance(failed[0][1], int) else None]}
+    return True, failed, log
 
 
 def _payload(v):
